@@ -1,6 +1,6 @@
 (* Driver.v — single entry point of the executable model: one case line in, one result line out.
    Used identically by the extracted OCaml driver and by [Eval vm_compute]. *)
-From MPD Require Import Bytes Tables Show TagModel TagSpec.
+From MPD Require Import Bytes Tables Show TagModel TagSpec DriverCmd.
 Open Scope N_scope.
 
 Definition find_tagv (ident : bytes) : option tagv :=
@@ -89,6 +89,7 @@ Definition dispatch (line : bytes) : bytes :=
   match split_on SP line with
   | kind :: args =>
     if is_tag_kind kind then run_tag kind args
+    else if is_cmd_kind kind then run_cmd kind args
     else b "unknown-kind " ++ kind
   | [] => b "empty"
   end.
